@@ -77,6 +77,12 @@ func c08Features() []c08Feature {
 		{"float-global", "RATIO = 0.1\n", "RATIO", []c08Mut{{"float literal", "RATIO = 0.1", "RATIO = 0.30000000000000004"}}},
 		{"bigint-global", "HUGE = 18446744073709551616\n", "HUGE", []c08Mut{{"big integer literal", "18446744073709551616", "18446744073709551617"}}},
 		{"negative-int", "NEG = -2147483648\n", "NEG", []c08Mut{{"int32 boundary literal", "-2147483648", "-2147483649"}}},
+		{"aliased-globals", "COMMON = [\"-Wall\"]\nDEBUG = [\"-g\"]\nFLAGS = {\"common\": COMMON, \"debug\": DEBUG, \"test\": DEBUG}\n", "FLAGS",
+			[]c08Mut{{"one of two aliases of a global list replaced by an equal-looking other list", "\"test\": DEBUG", "\"test\": [\"-Wall\"]"}}},
+		{"recursion-then-aliasing", "def depth(n):\n    return 0 if n == 0 else 1 + depth(n - 1)\nSHARED_A = [\"x\"]\nSHARED_B = [\"y\"]\nTABLE2 = {\"p\": SHARED_A, \"q\": SHARED_B, \"r\": SHARED_B}\n", "[depth(3), TABLE2]",
+			[]c08Mut{{"alias after a recursive helper", "\"r\": SHARED_B", "\"r\": [\"x\"]"}, {"second alias after a recursive helper", "\"q\": SHARED_B", "\"q\": SHARED_A"}}},
+		{"mutual-recursion-then-aliasing", "def ping(n):\n    return 0 if n == 0 else pong(n - 1)\ndef pong(n):\n    return 1 if n == 0 else ping(n - 1)\nLST1 = [1]\nLST2 = [2]\nPAIRS = [LST1, LST2, LST2, LST1]\n", "[ping(4), PAIRS]",
+			[]c08Mut{{"alias order after mutually recursive helpers", "[LST1, LST2, LST2, LST1]", "[LST1, LST2, LST1, LST1]"}}},
 		{"tuple-prefix-slice", "VERSION = (1, 4, 2)\nSERIES = VERSION[:2]\n", "[VERSION, SERIES]",
 			[]c08Mut{{"slice bound of a tuple sharing storage with another referenced tuple", "VERSION[:2]", "VERSION[:1]"}}},
 		{"tuple-slice-then-full", "FULLT = (7, 8, 9)\nHEAD = FULLT[:1]\n", "[HEAD, FULLT]",
